@@ -14,7 +14,7 @@ import argparse, concurrent.futures as cf, hashlib, json, os, re, shutil, subpro
 ROOT = os.path.normpath(os.path.join(os.path.dirname(os.path.abspath(__file__)), ".."))
 LEAN = os.path.join(ROOT, "lean", "MiniMoka")
 HARNESS = os.path.join(ROOT, "harness")
-HBIN = os.path.join(HARNESS, "target", "debug", "mmharness")
+HBIN = os.environ.get("VERIF_HBIN", os.path.join(HARNESS, "target", "debug", "mmharness"))
 DRIVER = os.path.join(LEAN, ".lake", "build", "bin", "mmdriver")
 SCRATCH = os.path.join(ROOT, "scratch")
 EVID = os.path.join(ROOT, "evidence")
@@ -151,8 +151,22 @@ def axiom_audit(modules, theorems, tag):
 # step 2: implementation side
 
 def build_harness():
+    """Returns (ok, log, phase_ok). The phase-split hooks call private functions of the crate; when
+    a change to the crate breaks them, the harness is rebuilt without them (`mini_moka_verif_phase`
+    off) so that every component that does not need them still runs against the changed code."""
+    global HBIN
     rc, out, err = run(["cargo", "build", "--offline"], cwd=HARNESS, timeout=3000)
-    return rc == 0, (out + err)
+    if rc == 0:
+        return True, (out + err), True
+    first = (out + err)
+    tdir = os.path.join(HARNESS, "target", "nophase")
+    rc, out, err = run(["cargo", "build", "--offline"], cwd=HARNESS, timeout=3000,
+                       env={"RUSTFLAGS": "--cfg mini_moka_verif", "CARGO_TARGET_DIR": tdir})
+    if rc == 0:
+        HBIN = os.path.join(tdir, "debug", "mmharness")
+        os.environ["VERIF_HBIN"] = HBIN          # worker processes read it at import
+        return True, first, False
+    return False, first + (out + err), False
 
 
 def limited(cmd):
@@ -834,10 +848,14 @@ def main():
         tie_broken.append("banned constructs: " + "; ".join(banned[:5]))
 
     # ---- implementation side
-    okh, hlog = build_harness()
+    okh, hlog, phase_ok = build_harness()
     _lk.__exit__()
     if not okh:
         tie_broken.append("harness build failed against /repo (hooks or API changed): " + hlog[-400:])
+    elif not phase_ok:
+        errs = [l for l in hlog.splitlines() if l.startswith("error")][:3]
+        tie_broken.append("the phase-split hooks no longer build against /repo (components concs and inject "
+                          "skipped, all others run): " + "; ".join(errs)[:400])
 
     if a.replay:
         return replay(prop, a.replay, mode, oracle_id)
@@ -868,6 +886,8 @@ def main():
         jobs = []
         mult = cfg.get("thorough_mult", 500) if tier == "thorough" else cfg.get("quick_mult", 3)
         comps = list(cfg["components"]) + (list(cfg.get("thorough_components", [])) if tier == "thorough" else [])
+        if not phase_ok:
+            comps = [c for c in comps if c[0] not in ("concs", "inject")]
         for ci, comp in enumerate(comps):
             kind, profiles, ncases, length = comp
             for pi, prof in enumerate(profiles):
@@ -953,6 +973,8 @@ def main():
             search_jobs = []
             for ci, comp in enumerate(cfg["components"]):
                 kind, profiles, ncases, length = comp
+                if not phase_ok and kind in ("concs", "inject"):
+                    continue
                 for pi, prof in enumerate(profiles):
                     for b in range(6):
                         search_jobs.append((prop, kind, (seed + 17) * 104729 + ci * 11 + pi * 7 + b * 3331,
